@@ -42,3 +42,24 @@ Print Assumptions C02_minimal_unique.
 Theorem C02_trim_certificate : forall (Q : Type) (E : EqDec Q) (B : enfa Q), trim_b B = true -> trim B.
 Proof. exact (@trim_b_sound). Qed.
 Print Assumptions C02_trim_certificate.
+
+(* minimize(), modelled by its specification (states that are reachable and lead to a final state, grouped by language equivalence,
+   quotient): the result accepts the same language, is deterministic, well formed, reduced and trim, for every DFA; and every
+   automaton carrying the certificates checked on pyformlang's result is isomorphic to it *)
+From PFL Require Import Model.Minimize Proofs.Minimize.
+Theorem C02_minimize_model : forall (Q : Type) (E : EqDec Q) (C : Canon Q) (A : enfa Q) (n : nat),
+  is_dfa A -> wf A -> (forall p q, enfa_equiv (reroot A p) (reroot A q) n <> None) ->
+  lang_eq (minimize_model A n) A /\ is_dfa (minimize_model A n) /\ wf (minimize_model A n) /\
+  reduced (minimize_model A n) /\ trim (minimize_model A n).
+Proof.
+  intros Q E C A n D W Hf. split; [apply minimize_lang; assumption|]. split; [apply minimize_dfa; assumption|].
+  split; [apply minimize_wf; assumption|]. split; [apply minimize_reduced; assumption|apply minimize_trim; assumption].
+Qed.
+Print Assumptions C02_minimize_model.
+
+Theorem C02_minimize_canonical : forall (Q Q2 : Type) (E : EqDec Q) (C : Canon Q) (E2 : EqDec Q2) (A : enfa Q) (n : nat) (B : enfa Q2),
+  is_dfa A -> wf A -> (forall p q, enfa_equiv (reroot A p) (reroot A q) n <> None) ->
+  is_dfa B -> wf B -> reduced B -> trim B -> lang_eq B A ->
+  isomorphism (minimize_model A n) B (Rel (minimize_model A n) B).
+Proof. exact (@minimize_canonical). Qed.
+Print Assumptions C02_minimize_canonical.
